@@ -324,6 +324,8 @@ def cut_loop(ex, node, st, lid, lspec, it, guard, auto_range):
         if nxt is not None and not z3.is_false(nxt.pc):
             k2 = (kk + it.step) if is_for else None
             for j, hnt in enumerate(lspec.hints):
+                if isinstance(hnt, tuple):
+                    hnt = hnt[1]
                 if isinstance(hnt, str) and hnt.startswith("use "):
                     ctx.assume(nxt, with_ghost(k2, lambda: ex.eval_spec(hnt[4:], nxt)))
                     continue
